@@ -235,6 +235,23 @@ func c10One(c *config, k c10Kind, bits *big.Int, label string) {
 		}
 	}
 	if !same {
+		// KF-06 says: a NaN comes back as the canonical quiet NaN *of its sign* (ppc_fp128 also loses the sign)
+		if cls == "nan_payload_nonzero" && k.letter != "M" {
+			signIn := bits.Bit(map[string]int{"H": 15, "F": 63, "D": 63, "K": 79, "L": 127}[k.letter])
+			var signOut uint
+			if strings.HasPrefix(printed, "0x") {
+				h := strings.TrimLeft(printed[2:], "HKLM")
+				ob, _ := new(big.Int).SetString(h, 16)
+				if ob != nil {
+					signOut = ob.Bit(len(h)*4 - 1)
+				}
+			} else if strings.HasPrefix(printed, "-") {
+				signOut = 1
+			}
+			if signOut != signIn {
+				cls = ""
+			}
+		}
 		o.Fail("float_round_trip", cls, "printed literal denotes a different bit pattern", det)
 		return
 	}
